@@ -1,11 +1,11 @@
 SPECIFICATION GenSpec
 CONSTANTS
-  MaxDecls = 40
+  MaxDecls = 36
   Sample = TRUE
   WithPlans = FALSE
-  BlockBudget = 16
-  MinDecls = 14
-  TypesOnly = FALSE
-  CallsOnly = TRUE
+  BlockBudget = 1000
+  MinDecls = 16
+  TypesOnly = TRUE
+  CallsOnly = FALSE
   Rich = TRUE
 CHECK_DEADLOCK FALSE
